@@ -26,6 +26,7 @@ def pair_units(tier):
     return [c for c in pcls if unambiguous(ptypes, c["instrs"], c["entry"])]
 
 
+THRESH = int(__import__("os").environ.get("VERIF_THRESH", "252"))
 THOROUGH = [{"lens": [0, 1], "counts": [0, 1, 2]}, {"lens": [0, 1, 2], "counts": [0, 1, 2]}, {"lens": [0, 1, 2, 3], "counts": [0, 1, 2]},
             {"lens": [0, 1, 2, 3], "counts": [0, 1, 2, 3]}]
 
@@ -38,6 +39,12 @@ def jobs(tier):
         js.append(dict(name=f"roundtrip[{c['name']},lens={cfg['lens'][-1]},counts={cfg['counts'][-1]}]", fn="roundtrip",
                        args=[corpus.closure(types, c["instrs"]), c, cfg], tree="core", collect_models=2,
                        expect=["deserializer consumes exactly the bytes written"]))
+    # size thresholds: the largest string / array a one-byte length field can announce (252), all characters symbolic
+    for c in cls:
+        if c["name"] in ("Named", "LengthBytes", "OptionalBound") or (tier != "quick" and c["name"] in ("CountedItems", "ArrayZoo")):
+            cfg = {"lens": [THRESH], "counts": [THRESH]}
+            js.append(dict(name=f"roundtrip[{c['name']},lens={THRESH},counts={THRESH}]", fn="roundtrip", args=[corpus.closure(types, c["instrs"]), c, cfg],
+                           tree="core", collect_models=1, expect=["deserializer consumes exactly the bytes written"]))
     # units of the generated pair corpus that a conservative static classifier (props/unambiguous.py) accepts as
     # wire-unambiguous in the sense of C01's quantifier
     _, ptypes, _ = corpus.pairs(tier, corpus.seed())
